@@ -16,6 +16,10 @@ CHECKS = {
     text="TLC (MC_Query) enumerates every document of the generator machine (maps, sequences, Arrays-of-Hashes, sets, scalars of every type, int/str keys, an anchored scalar with aliases) up to the node bound, derives each document's path vocabulary (key, index, slice, anchor, all nine search operators plain and inverted on '.', on attributes and on descendant paths, *, **; one- and two-segment paths), evaluates the declarative selection Sel of spec/YQuery.tla, checks its design theorems and emits the expected positions; every case is replayed into the real Processor (required query in both notations, exists, optional query when every branch exists) and compared by node identity and order.",
     note="Trusted: TLC; Sel as the reading of README/CHANGES (Appendix A of DESIGN.md); concretise/abstract. Cases that touch a rule the documentation leaves open are tagged informational by the model and never alarm. Bounds: quick = documents of <= 4 nodes, ~6000 documents x ~85 paths (one- and two-segment, reduced vocabulary); thorough = <= 5 nodes with the full vocabulary.",
     technique="TLA+ declarative semantics evaluated by TLC over an enumerated document x path space + S->C replay", ref="4/C01"),
+ "C15": dict(
+    text="TLC evaluates the selection semantics for every (document, path) of MC_Query; every operator application that could be undefined sits behind a guard returning no match or the YAML-Path-error outcome, so TLC completing the run is the totality theorem within the bounds. Every emitted case, including keyword-search, collector-over-scalars, ill-formed-regex and repeated-traversal families, is replayed into get_nodes(mustexist=True), get_nodes() and exists(); the projection is the outcome class only.",
+    note="Trusted: TLC; CPython's exception hierarchy. Bounds as C01 plus the C15 families (7 keywords x 2 x parameter texts, 5 ill-formed regular expressions, collector pairs with + - &). Collector cases whose operands select containers are outside the property's stated domain and skipped.",
+    technique="TLA+ totality of the selection model (TLC) + S->C replay judged by exception class", ref="4/C15"),
 }
 NA_REASON = "check not built yet in this round (specification family under construction; see DESIGN.md section 9)"
 def main():
